@@ -1,10 +1,11 @@
 import AmaranthVerif.Driver.StmtIO
+import AmaranthVerif.Driver.FsmIO
 
 /-! # Model driver: one request per line on stdin, one response per line on stdout -/
 
 open Amaranth
 
-def handlers : List (Sexp → Option String) := [handleExpr, handleAssign, handleProc, handleDerived]
+def handlers : List (Sexp → Option String) := [handleExpr, handleAssign, handleProc, handleDerived, handleFProc, handleFLower]
 
 def respond (line : String) : String :=
   match Sexp.parse line with
